@@ -29,6 +29,8 @@ def build(spec, data=None):
         elif mode == 'tight':
             kwargs.update(minimum=float(np.min(data)), maximum=float(np.max(data)))
     if spec['cls'] == 'Univariate':
+        if kwargs.get('selection_sample_size') == 'n':          # exactly as many as there are data: no sub-sampling
+            kwargs['selection_sample_size'] = len(data)
         if 'parametric' in kwargs and kwargs['parametric'] is not None:
             kwargs['parametric'] = cu.ParametricType[kwargs['parametric']]
         if 'bounded' in kwargs and kwargs['bounded'] is not None:
@@ -66,6 +68,7 @@ def model_specs(rng, tier):
     specs.append({'cls': 'Univariate', 'kwargs': {'candidates': [
         'name:copulas.univariate.BetaUnivariate', {'cls': 'GaussianKDE', 'kwargs': {'bw_method': 0.3}}]}})
     specs.append({'cls': 'Univariate', 'kwargs': {'selection_sample_size': 50}})
+    specs.append({'cls': 'Univariate', 'kwargs': {'selection_sample_size': 'n'}})
     return specs
 
 
